@@ -63,7 +63,16 @@ func c10Expectations(m *smodel.Model, def string) []c10Expect {
 				overrides, _ := v.(map[string]any)
 				for _, tf := range rt.Fields {
 					if ov, ok := overrides[tf.Name]; ok {
-						out = append(out, c10Expect{p + "." + tf.Name, "default", ov, "struct_override:" + m.Resolve(tf.Type).Kind, f.Required})
+						if ov == nil {
+							continue // an explicit null override declares nothing
+						}
+						kind := m.Resolve(tf.Type).Kind
+						if l, isList := ov.([]any); isList && len(l) == 0 {
+							kind += "_empty"
+						} else if mm, isMap := ov.(map[string]any); isMap && len(mm) == 0 {
+							kind += "_empty"
+						}
+						out = append(out, c10Expect{p + "." + tf.Name, "default", ov, "struct_override:" + kind, f.Required})
 					} else if tf.Type.Default != nil {
 						dv, _ := smodel.ParseJSON(string(*tf.Type.Default))
 						out = append(out, c10Expect{p + "." + tf.Name, "default", dv, "struct_not_overridden:" + tf.Type.Kind, f.Required})
@@ -256,6 +265,9 @@ func c10CheckBatch(run *vlib.Run, models []*smodel.Model) (map[int][]vlib.Violat
 				if c10HasMapDefault(c.Model) {
 					tag = ":model-has-map-default"
 				}
+				if c10OverrideNamesConstant(c.Model) {
+					tag += ":struct-default-names-constant"
+				}
 				bad("constructor-fails:"+l.name+":"+f+":"+strings.SplitN(l.err, ":", 2)[0]+tag, "%s default constructor fails: %s", l.name, l.err)
 				continue
 			}
@@ -305,6 +317,31 @@ func c10CheckBatch(run *vlib.Run, models []*smodel.Model) (map[int][]vlib.Violat
 	count(run, "paths_where_all_languages_and_formats_agree", agree)
 	count(run, "paths_where_they_differ", differ)
 	return out, nil
+}
+
+// c10OverrideNamesConstant: some struct default names a constant field of
+// the referred struct.
+func c10OverrideNamesConstant(m *smodel.Model) bool {
+	found := false
+	m.Walk(func(_ string, _ string, t *smodel.T) {
+		if t.Kind != smodel.KRef || t.Default == nil {
+			return
+		}
+		target := m.Def(t.Ref)
+		if target == nil {
+			return
+		}
+		var obj map[string]any
+		if json.Unmarshal(*t.Default, &obj) != nil {
+			return
+		}
+		for _, f := range target.Type.Fields {
+			if _, has := obj[f.Name]; has && f.Type.Const != nil {
+				found = true
+			}
+		}
+	})
+	return found
 }
 
 func c10HasMapDefault(m *smodel.Model) bool {
